@@ -168,7 +168,7 @@ def regex_family(ev, mods, imps, rx, o, acc, pre_drop=None):
 
     s = ("regex", rx)
     if not any(_re.match(rx, m) for m in mods):
-        return
+        return unmatched_regex_negation(ev, mods, imps, rx, o, acc)
     case = {"kind": "regex_family", "mods": mods, "imps": imps, "rx": rx, "o": o, "pre_drop": pre_drop}
     HUB.case = case
     pre = None
@@ -217,6 +217,22 @@ def regex_family(ev, mods, imps, rx, o, acc, pre_drop=None):
             HUB.violation("C12", f"decomposition:should_only:{d}:regex-subject", "'should only' differs from 'should' and 'should not ... except' for a regex subject", w)
         if (out[("so", "should_only", d, True)] == "pass") != (out[("so", "should", d, True)] == "pass" and out[("so", "should_not", d, False)] == "pass"):
             HUB.violation("C12", f"decomposition:should_only_except:{d}:regex-subject", "'should only ... except' differs from its decomposition for a regex subject", w)
+
+
+def unmatched_regex_negation(ev, mods, imps, rx, o, acc):
+    """A regex that matches nothing gives no verdict at all; if a change turns the 'nothing matches' error into something
+    that looks like a verdict, 'should' and 'should not' come out the same way - which the negation law forbids."""
+    HUB.case = {"kind": "regex_family", "mods": mods, "imps": imps, "rx": rx, "o": o, "pre_drop": None}
+    for side in ("subject", "object"):
+        for d in rrule.DIRS:
+            for exc in (False, True):
+                s_, o_ = (("regex", rx), o) if side == "subject" else (o, ("regex", rx))
+                a = run(mk_rule(cfg_of("should", d, exc, s_, o_)), ev)[0]
+                b = run(mk_rule(cfg_of("should_not", d, exc, s_, o_)), ev)[0]
+                acc.evaluated(2)
+                acc.count("law_negation_unmatched_regex")
+                if a in ("pass", "fail") and b in ("pass", "fail") and a == b:
+                    HUB.violation("C12", f"negation:{d}:{'except' if exc else 'plain'}:unmatched-regex-{side}", f"'should' and 'should not' both {a} for a regex {side} that matches no module", {"rx": rx, "other": o, "should": a, "should_not": b})
 
 
 def nested_batch_family(ev, mods, imps, s, objs, acc):
@@ -452,6 +468,8 @@ def randomised(spec, acc):
                 matched = [x for x in names if _re.match(rx, x) and not any(y != x and y.startswith(x + ".") for y in names) and not related(x, o2[1])]
                 pre_drop = rnd.choice(matched) if len([x for x in names if _re.match(rx, x)]) >= 2 and matched and rnd.random() < 0.5 else None
                 regex_family(ev, mods, imps, rx, o2, acc, pre_drop=pre_drop)
+                if rnd.random() < 0.1:
+                    regex_family(ev, mods, imps, _re.escape(m) + r"_zz_nothing$", o2, acc)
             n += 1
             if n % 97 == 1:
                 acc.sample({"kind": "family", "modules": mods, "imports": imps, "subject": s, "object": o, "added_for_monotonicity": edges})
@@ -484,6 +502,8 @@ def floors(acc, tier):
             why.append(f"{law}: only {acc.counters[law]} instances checked")
     if acc.counters["big_families"] < 3:
         why.append("too few families on big architectures (1000+ imports, 250+ importers)")
+    if acc.counters["law_negation_unmatched_regex"] < 50:
+        why.append(f"negation law on unmatched regexes: {acc.counters['law_negation_unmatched_regex']}")
     if acc.counters["regex_families_with_reused_rule_objects"] < 30:
         why.append(f"regex families with re-used rule objects: {acc.counters['regex_families_with_reused_rule_objects']}")
     if acc.counters["source_monotonicity_second_from_import_of_a_package"] < 10:
